@@ -710,8 +710,9 @@ def register(reg):
         it.ctx.assume(z3.And(0 <= p, p <= a, a <= e, e <= zint(V.slen(s))))
         n = sym_int(it, 'tok.arglen')
         it.ctx.assume(z3.And(n >= 0, a + 1 + n <= e))
-        macro = it.ctx.choose(2, 'token with post_space') == 0
-        tok = mk_token(it, 'macro' if macro else 'char', V.sslice(it.ctx, s, a + 1, a + 1 + n) if macro else
+        kind = ['macro', 'comment', 'char'][it.ctx.choose(3, 'token kind (macros and comments carry post_space)')]
+        macro = kind != 'char'
+        tok = mk_token(it, kind, V.sslice(it.ctx, s, a + 1, a + 1 + n) if macro else
                        V.sslice(it.ctx, s, a, e), a, e, V.sslice(it.ctx, s, p, a),
                        V.sslice(it.ctx, s, a + 1 + n, e) if macro else '')
         return {'self': rd, 'tok': tok}
